@@ -460,19 +460,22 @@ Inductive tree_wf : ptree -> Prop :=
 Section Acc.
   Variable nonstr : string -> bool.
 
-  Lemma run_gens_Inv secret gens : forall m m',
-    Forall creates gens -> Forall gen_good gens -> Inv m -> run_gens nonstr secret gens m = Ok m' -> Inv m'.
+  Lemma gen_good_merge go g : gen_good g -> gen_good (merge_genopts go g).
+  Proof. destruct go; auto. Qed.
+
+  Lemma run_gens_Inv go secret gens : forall m m',
+    Forall creates gens -> Forall gen_good gens -> Inv m -> run_gens nonstr go secret gens m = Ok m' -> Inv m'.
   Proof.
     induction gens as [|g t IH]; intros m m' Hc Hg HI H; cbn [run_gens] in H; [inv H; exact HI|].
     inversion Hc as [|? ? Hc1 Hc2]; subst. inversion Hg as [|? ? Hg1 Hg2]; subst.
-    destruct (gen_resource secret g) as [r| | |] eqn:EG; cbn [bind] in H; try discriminate.
+    destruct (gen_resource secret (merge_genopts go g)) as [r| | |] eqn:EG; cbn [bind] in H; try discriminate.
     destruct (absorb nonstr m _ r) as [m1| | |] eqn:EA; cbn [bind] in H; try discriminate.
     eapply IH; [exact Hc2|exact Hg2| |exact H].
     destruct HI as [HW Hd]. unfold absorb in EA.
     destruct (matching_any (cur_id cs r) 0 m) as [ms| | |]; cbn [bind] in EA; try discriminate.
     destruct (create_action (List.length ms) _ Hc1) as [E|E]; rewrite E in EA; [|discriminate].
     apply append_one_spec in EA as [-> Hn]. split.
-    - apply Forall_app. split; [exact HW|constructor; [eapply gen_resource_W; eauto|constructor]].
+    - apply Forall_app. split; [exact HW|constructor; [eapply gen_resource_W; [apply gen_good_merge; exact Hg1|exact EG]|constructor]].
     - apply distinct_ids_snoc. split; assumption.
   Qed.
 
@@ -483,8 +486,8 @@ Section Acc.
     induction ks as [|k t IH]; intros m m' HI H; cbn [run_generator_kinds] in H; [inv H; exact HI|].
     match type of H with bind ?E _ = _ => destruct E as [mm| | |] eqn:E1 end; cbn [bind] in H; try discriminate.
     eapply IH; [|exact H].
-    destruct (String.eqb k "ConfigMapGenerator"); [exact (run_gens_Inv _ _ _ _ Hc1 Hg1 HI E1)|].
-    destruct (String.eqb k "SecretGenerator"); [exact (run_gens_Inv _ _ _ _ Hc2 Hg2 HI E1)|].
+    destruct (String.eqb k "ConfigMapGenerator"); [exact (run_gens_Inv _ _ _ _ _ Hc1 Hg1 HI E1)|].
+    destruct (String.eqb k "SecretGenerator"); [exact (run_gens_Inv _ _ _ _ _ Hc2 Hg2 HI E1)|].
     inv E1. exact HI.
   Qed.
 
@@ -610,14 +613,14 @@ Section NoPanic.
     destruct (create_action (List.length ms) b Hb) as [E|E]; rewrite E; [unfold append_one; np_case|discriminate].
   Qed.
 
-  Lemma np_run_gens secret gens : forall m,
-    Forall creates gens -> Forall gen_good gens -> Inv m -> np (run_gens nonstr secret gens m).
+  Lemma np_run_gens go secret gens : forall m,
+    Forall creates gens -> Forall gen_good gens -> Inv m -> np (run_gens nonstr go secret gens m).
   Proof.
     induction gens as [|g t IH]; intros m Hc Hg HI; cbn [run_gens]; [discriminate|].
     inversion Hc as [|? ? Hc1 Hc2]; subst. inversion Hg as [|? ? Hg1 Hg2]; subst.
     apply np_bind; [apply np_gen_resource|]. intros r Er.
     apply np_bind; [apply np_absorb_create; [exact Hc1|exact (proj1 HI)]|]. intros m' Em. apply IH; auto.
-    eapply (run_gens_Inv nonstr secret [g]); [constructor; [exact Hc1|constructor]|constructor; [exact Hg1|constructor]|exact HI|].
+    eapply (run_gens_Inv nonstr go secret [g]); [constructor; [exact Hc1|constructor]|constructor; [exact Hg1|constructor]|exact HI|].
     cbn [run_gens]. rewrite Er. cbn [bind]. rewrite Em. reflexivity.
   Qed.
 
@@ -630,8 +633,8 @@ Section NoPanic.
     - destruct (String.eqb k "ConfigMapGenerator"); [apply np_run_gens; auto|].
       destruct (String.eqb k "SecretGenerator"); [apply np_run_gens; auto|discriminate].
     - intros mm E. apply IH.
-      destruct (String.eqb k "ConfigMapGenerator"); [exact (run_gens_Inv _ _ _ _ _ Hc1 Hg1 HI E)|].
-      destruct (String.eqb k "SecretGenerator"); [exact (run_gens_Inv _ _ _ _ _ Hc2 Hg2 HI E)|]. inv E. exact HI.
+      destruct (String.eqb k "ConfigMapGenerator"); [exact (run_gens_Inv _ _ _ _ _ _ Hc1 Hg1 HI E)|].
+      destruct (String.eqb k "SecretGenerator"); [exact (run_gens_Inv _ _ _ _ _ _ Hc2 Hg2 HI E)|]. inv E. exact HI.
   Qed.
 
   Lemma np_fs_apply_scalar fs v obj : np (fs_apply (Some KScalar) TStr (fun n => set_scalar_to (v n) n) fs obj).
